@@ -11,38 +11,18 @@ From NV Require Import Bytes GenConsts UcDefs UcSpec UcProps UcSegProps.
 From NV Require Import ReSyntax ReParse ReEmit ReVM RsetDefs ReProps9.
 From NV Require RstrDefs RstrProps Properties_C11 Properties_C12.
 From NV Require Import SubstDefs SubstProps SubstUtf8.
+From NV Require SubstEngineDefs.
 Import ListNotations.
 Local Open Scope N_scope.
 
 (* ---------------------------------------------------------------------------------------------- *)
-(* the matcher of ec_substitute over the regex model.
-     re = rstr_make(pat, xic ? RE_ICASE : 0);
-     rstr_find(re, ln, LEN(offs) / 2, offs, r ? RE_NOTBOL : 0) >= 0
-   d = the recursion limit of re_rec (regex.c: NDEPT; ReVM.depth) -- the theorems hold for every d.
-   A pattern that rstr_make refuses (NULL) makes ec_substitute return before the loop: no match.
-   The model-only outcomes OOB / NoFuel of the engine (excluded for NUL-free lines by C11_regexec_total)
-   read as "no match" here. *)
-Definition icflag (ic : bool) : Z := if ic then RE_ICASE else 0%Z.
-Definition nbflag (nb : bool) : Z := if nb then RE_NOTBOL else 0%Z.
-Definition ngrps : nat := 16.                     (* LEN(offs) / 2 with int offs[32] *)
-
-Definition engine_find (d : nat) (ic : bool) (pat : bytes) (ln : bytes) (nb : bool) : option (list grp) :=
-  match RstrDefs.rstr_make pat ic with
-  | RstrDefs.Simple r =>
-    match RstrDefs.rstr_find r ln nb false with
-    | RstrDefs.Found so eo => Some (RstrDefs.rstr_groups ngrps so eo)
-    | _ => None
-    end
-  | RstrDefs.General =>
-    match rset_make [Some pat] (icflag ic) with
-    | Ok (Some rs) =>
-      match rset_find_d d rs ln ngrps (nbflag nb) with
-      | (Ok (idx, g), _) => if (0 <=? idx)%Z then Some g else None
-      | _ => None
-      end
-    | _ => None
-    end
-  end.
+(* the matcher of ec_substitute over the regex model: the definitions live in SubstEngineDefs.v (no proofs there, it is
+   extracted for the correspondence run); the names below keep ComposeSubst.engine_find etc. as they were *)
+Notation icflag := SubstEngineDefs.icflag.
+Notation nbflag := SubstEngineDefs.nbflag.
+Notation ngrps := SubstEngineDefs.ngrps.
+Notation general_find := SubstEngineDefs.general_find.
+Notation engine_find := SubstEngineDefs.engine_find.
 
 (* ---------------------------------------------------------------------------------------------- *)
 (* 1. rset_make / rset_find in terms of regcomp / regexec *)
@@ -208,7 +188,7 @@ Theorem engine_find_wf d ic pcs l0 nb offs :
   Forall scalar pcs -> ~ In 10 pcs -> Forall scalar l0 -> ~ In 10 l0 ->
   engine_find d ic (chars pcs) (chars (l0 ++ [10])) nb = Some offs -> Forall (wf_grp (l0 ++ [10])) offs.
 Proof.
-  intros Hp Np Hl Nl. unfold engine_find, RstrDefs.rstr_make.
+  intros Hp Np Hl Nl. unfold SubstEngineDefs.engine_find, SubstEngineDefs.general_find, RstrDefs.rstr_make.
   destruct (RstrDefs.rstr_simple ic (chars pcs)) as [r|] eqn:Hs.
   - destruct (RstrDefs.rstr_find r (chars (l0 ++ [10])) nb false) as [so eo| |] eqn:Hf; try discriminate.
     intro H. inversion H; subst offs. apply (fastpath_wf ic pcs r l0 nb so eo); assumption.
@@ -223,7 +203,7 @@ Theorem engine_find_general_wf d ic pcs cs nb offs :
   Forall scalar pcs -> Forall scalar cs -> RstrDefs.rstr_simple ic (chars pcs) = None ->
   engine_find d ic (chars pcs) (chars cs) nb = Some offs -> Forall (wf_grp cs) offs.
 Proof.
-  intros Hp Hl Hs. unfold engine_find, RstrDefs.rstr_make. rewrite Hs.
+  intros Hp Hl Hs. unfold SubstEngineDefs.engine_find, SubstEngineDefs.general_find, RstrDefs.rstr_make. rewrite Hs.
   destruct (rset_make [Some (chars pcs)] (icflag ic)) as [[rs|]| |] eqn:Hm; try discriminate.
   destruct (rset_find_d d rs (chars cs) ngrps (nbflag nb)) as [[[idx g]| |] c] eqn:Hf; try discriminate.
   destruct (0 <=? idx)%Z eqn:Hi; [|discriminate]. intro H. inversion H; subst offs.
